@@ -705,6 +705,7 @@ type escLine struct {
 	Xe    string `json:"xe"`
 	Xa    string `json:"xa"`
 	Xm    string `json:"xm"`
+	Xl    string `json:"xl"`
 	RawOK bool   `json:"rawok"`
 }
 
@@ -756,13 +757,14 @@ func replayEsc(line []byte, a *Acc) {
 		"elem":  {"a": l.S},
 		"attr":  {"a": map[string]interface{}{"-x": l.S}},
 		"mixed": {"a": map[string]interface{}{"#text": l.S, "b": ""}},
+		"list":  {"a": []interface{}{l.S, "x"}},
 	}
 	seqs := map[string]mxj.MapSeq{
 		"elem":  {"a": map[string]interface{}{"#text": l.S, "#seq": 0}},
 		"attr":  {"a": map[string]interface{}{"#attr": map[string]interface{}{"x": map[string]interface{}{"#text": l.S, "#seq": 0}}}},
 		"mixed": {"a": map[string]interface{}{"#text": l.S, "#seq": 0, "b": map[string]interface{}{"#text": "", "#seq": 1}}},
 	}
-	expX := map[string]string{"elem": l.Xe, "attr": l.Xa, "mixed": l.Xm}
+	expX := map[string]string{"elem": l.Xe, "attr": l.Xa, "mixed": l.Xm, "list": l.Xl}
 	// ---- mode 1: encoder-side escaping
 	mxj.XMLEscapeChars(true)
 	for pos, m := range maps {
@@ -798,6 +800,9 @@ func replayEsc(line []byte, a *Acc) {
 				if want == "" {
 					got = ""
 				}
+			case "list":
+				got, _ = back.ValueForPath("doc.a[0]")
+				want = trimDoc(l.S)
 			}
 			if derr != nil || got != want {
 				one("esc:enc:decode-back:"+pos+":"+name, fmt.Sprintf("Map.%s = %q decodes to %q (err %v), want %q", name, out, got, derr, want))
